@@ -139,6 +139,24 @@ func genC05(rng *rand.Rand, tier string) *sim.Plan {
 		p.Phases = append(p.Phases, ph)
 	}
 	maybeRedis(rng, p, 0.2)
+	if chance(rng, 0.3) {
+		// clients without a client identifier: the broker makes one up for each; they are different sessions and do
+		// not displace each other however their CONNECTs interleave
+		a := len(p.Clients)
+		va, vb := pick(rng, []byte{4, 5}), pick(rng, []byte{4, 5})
+		p.Clients = append(p.Clients, sim.ClientSpec{ID: "anonA", Ver: va}, sim.ClientSpec{ID: "anonB", Ver: vb})
+		if p.Params == nil {
+			p.Params = map[string]string{}
+		}
+		p.Params["anon"] = "2"
+		empty := ""
+		ph := sim.Phase{Ops: []sim.Op{
+			{K: "connect", C: a, Clean: true, ClientID: &empty, NoWait: true}, {K: "connect", C: a + 1, Clean: true, ClientID: &empty},
+			{K: "subscribe", C: a, Subs: []mqttc.Sub{{Filter: "anon/x", QoS: 1}}}, {K: "subscribe", C: a + 1, Subs: []mqttc.Sub{{Filter: "anon/x", QoS: 1}}}}}
+		pr := sim.Phase{Ops: []sim.Op{{K: "publish", C: obs, Topic: "anon/x", QoS: 1, Payload: "anon-probe"}}}
+		at := 1 + rng.IntN(len(p.Phases))
+		p.Phases = append(p.Phases[:at:at], append([]sim.Phase{ph, pr}, p.Phases[at:]...)...)
+	}
 	return p
 }
 
@@ -169,8 +187,13 @@ func oracleC05(p *sim.Plan, out *sim.Outcome) []sim.Violation {
 	if p.Broker.SessionExpiryS != nil {
 		cfgExp = uint32(*p.Broker.SessionExpiryS)
 	}
-	nc := len(p.Clients) - 1
+	nAnon := 0
+	fmt.Sscan(p.Params["anon"], &nAnon)
+	nc := len(p.Clients) - 1 - nAnon
 	obs := nc
+	if nAnon == 2 {
+		vs = append(vs, c05anon(p, h, nc+1)...)
+	}
 	// ops by connection / per client bookkeeping
 	connectOp := map[int]*sim.OpRec{} // conn -> connect op
 	for _, o := range h.Ops {
@@ -448,6 +471,74 @@ func oracleC05(p *sim.Plan, out *sim.Outcome) []sim.Violation {
 						}
 					}
 				}
+			}
+		}
+	}
+	return vs
+}
+
+// c05anon judges the two clients that connect with a zero-length client identifier (C05.anonymous).
+func c05anon(p *sim.Plan, h *sim.History, a int) []sim.Violation {
+	var vs []sim.Violation
+	assigned := map[int]string{}
+	okc := map[int]bool{}
+	conn := map[int]int{}
+	for _, o := range h.Ops {
+		if o.Op.K == "connect" && (o.Op.C == a || o.Op.C == a+1) {
+			conn[o.Op.C] = o.Conn
+			if o.Ack == nil {
+				continue // nothing to judge (run ended / connection lost before the answer)
+			}
+			if o.Ack.Code != 0 {
+				vs = append(vs, viol("C05", "anonymous", "refused", "CONNECT with a zero-length client identifier and Clean Start 1 (client %d, MQTT level %d) was refused with 0x%02x", o.Op.C, p.Clients[o.Op.C].Ver, o.Ack.Code))
+				continue
+			}
+			okc[o.Op.C] = true
+			if o.Ack.SessionPresent {
+				vs = append(vs, viol("C05", "anonymous", "session-present", "CONNECT with a zero-length client identifier was answered with Session Present 1"))
+			}
+			if p.Clients[o.Op.C].Ver == 5 {
+				if o.Ack.Props == nil || o.Ack.Props.AssignedClientID == nil || *o.Ack.Props.AssignedClientID == "" {
+					vs = append(vs, viol("C05", "anonymous", "no-assigned-id", "MQTT 5 CONNECT with a zero-length client identifier: CONNACK carries no Assigned Client Identifier"))
+				} else {
+					assigned[o.Op.C] = *o.Ack.Props.AssignedClientID
+				}
+			}
+		}
+	}
+	if len(assigned) == 2 && assigned[a] == assigned[a+1] {
+		vs = append(vs, viol("C05", "anonymous", "same-assigned-id", "two clients without a client identifier were both assigned %q", assigned[a]))
+	}
+	if !(okc[a] && okc[a+1]) {
+		return vs
+	}
+	// neither is displaced, both are served: the probe published after both SUBACKs reaches both
+	subOK := map[int]bool{}
+	for _, o := range h.Ops {
+		if o.Op.K == "subscribe" && (o.Op.C == a || o.Op.C == a+1) && o.Ack != nil {
+			subOK[o.Op.C] = true
+		}
+	}
+	got := map[int]int{}
+	for _, r := range h.Recs {
+		if r.Kind == "rx" && (r.C == a || r.C == a+1) && r.Pkt.Type == mqttc.PUBLISH && string(r.Pkt.Payload) == "anon-probe" {
+			got[r.C]++
+		}
+		if r.Kind == "bclose" && (r.C == a || r.C == a+1) && r.Conn == conn[r.C] && !finalPhase(h, r.Step) {
+			vs = append(vs, viol("C05", "anonymous", "displaced", "the connection of a client without a client identifier (client %d) was closed by the broker", r.C))
+			return vs
+		}
+	}
+	probed := false
+	for _, o := range h.Ops {
+		if o.Op.K == "publish" && o.Op.Payload == "anon-probe" && o.Ack != nil {
+			probed = true
+		}
+	}
+	if probed && subOK[a] && subOK[a+1] {
+		for _, c := range []int{a, a + 1} {
+			if got[c] != 1 {
+				vs = append(vs, viol("C05", "anonymous", "not-served", "client %d (no client identifier) received the probe %d times after its SUBACK; the two anonymous clients must be separate sessions", c, got[c]))
 			}
 		}
 	}
